@@ -15,6 +15,8 @@ def refix_all(t, fname):
     t = re.sub(r"def __call__\(self, \*args", "def __call__(self, /, *args", t)
     t = re.sub(r"def cache_discard\(self, \*args", "def cache_discard(self, /, *args", t)
     t = re.sub(r"def callback\(self, callback: C, \*args", "def callback(self, callback: C, /, *args", t)
+    # repo fix b69fc4c
+    t = t.replace("self._target_key != state.current_key", "not (self._target_key == state.current_key)")
     if fname.endswith("builtins.py"):
         t = re.sub(r"\b(value) != ((?:self\._)?sentinel)\b(?<!is not sentinel and value != sentinel)", r"\1 is not \2 and \1 != \2", t)
         t = t.replace("value is not sentinel and value is not sentinel and", "value is not sentinel and")
